@@ -744,9 +744,21 @@ Definition c06h_run (which : Z) (case obs : sx) : verdict :=
    short last piece together with io.EOF (harness oracle lz4-reader-chunks), so inside the skip loop a short last piece
    is swallowed without being counted.
      case = (max cut (off ...) (#frame ...) bufsz lsof)   the file = the lz4 frames of the byte strings, one after the other;
-            (off ...) = the stream offsets loaded for this source (empty: not listed); ONE pass; lsof = what the lsof
-            stub of the harness answers (ignored here)
-     obs  = ((emit ...) curOffset #tail shouldSkip)        emit as in which 0 (which 6) / which 1 (which 7)          *)
+            (off ...) = the stream offsets loaded for this source (empty: not listed); lsof = what the lsof stub of the
+            harness answers when worker.go asks whether somebody writes to the file (isNotFileBeingWritten, which looks
+            at the FD column only since /repo fix 353d84e) and what follows:
+              0 no lsof in PATH | 1 readers only | 3 lsof finds nobody | 4 readers only, a path with the letter w:
+                ONE pass, the file is read;
+              2 a writer holds the file: the pass reads nothing and marks the job done ("try again later":
+                jobProvider.doneJob(job); continue);
+              5 as 2, then the watcher's write notification (tryResumeJobAndUnlock) and a pass that finds readers only:
+                the file is read as in a first pass (curOffset and the file position are still 0);
+              6 as 2, then a maintenance tick, remove_after off: maintenanceJob does not resume a compressed job
+                (stat.Size() != offset && !job.isCompressed), it re-opens the file and reports "nothing changed" (4);
+              7 as 2, then a maintenance tick with remove_after expired (see c06z_pred)
+     obs  = ((emit ...) curOffset #tail shouldSkip done [result [gone]])
+            emit as in which 0 (which 6) / which 1 (which 7); done = Job.isDone at the end; result = what the tick of
+            scenario 6 | 7 returned; gone = the file is removed (scenario 7)                                          *)
 Fixpoint lz4_skip (fuel : nat) (n m L : Z) (rest : bytes) : Z * bytes :=
   match fuel with
   | O => (L, rest)
@@ -761,10 +773,10 @@ Definition frame_of_sx (s : sx) : option bytes := match s with SB b => Some b | 
 
 Definition zcase_of_sx (s : sx) : option zcase :=
   match s with
-  | SL [SZ mx; cut; SL os; SL fs; SZ n; SZ _] =>
+  | SL [SZ mx; cut; SL os; SL fs; SZ n; SZ l] =>
       match as_bool cut, opt_map z_of_sx os, opt_map frame_of_sx fs with
       | Some cu, Some ol, Some fl =>
-          if (0 <=? mx) && (1 <=? n) && forallb (fun x => 0 <=? x) ol
+          if (0 <=? mx) && (1 <=? n) && forallb (fun x => 0 <=? x) ol && (0 <=? l) && (l <=? 7)
           then Some {| z_cfg := {| wmax := mx; wcut := cu |}; z_offs := ol; z_frames := fl; z_n := Z.to_nat n |}
           else None
       | _, _, _ => None
@@ -782,10 +794,23 @@ Definition z_pass (k : zcase) : Z * list emit * wst :=
   let '(es, st) := round (z_cfg k) {| cur := L; tail := []; skip := false |} (chunks (z_n k) rest) in
   (L, es, st).
 
-Definition c06z_model (which : Z) (k : zcase) : sx :=
-  let '(L, es, st) := z_pass k in
-  (* Job.seek set curOffset to 0 and the skipped bytes are not added to it: curOffset = bytes read after the skipping *)
-  SL [SL (map (sx_of_emit which (z_cfg k)) es); SZ (cur st - L); SB (tail st); of_bool (skip st)].
+(* the lsof scenario of a case (zcase_of_sx has checked 0 <= l <= 7) *)
+Definition z_lsof_of_sx (s : sx) : Z :=
+  match s with SL [_; _; _; _; _; SZ l] => l | _ => 0 end.
+
+(* the file is read in this case (in its only pass, or in the pass after the write notification) *)
+Definition z_reads (l : Z) : bool := negb ((l =? 2) || (l =? 6) || (l =? 7)).
+
+Definition c06z_model (which : Z) (k : zcase) (l : Z) : sx :=
+  if z_reads l then
+    let '(L, es, st) := z_pass k in
+    (* Job.seek set curOffset to 0 and the skipped bytes are not added to it: curOffset = bytes read after the skipping *)
+    SL [SL (map (sx_of_emit which (z_cfg k)) es); SZ (cur st - L); SB (tail st); of_bool (skip st); of_bool true]
+  else
+    (* being written: nothing is read, the job is done; the tick of scenario 6 re-opens the file and changes nothing
+       (4); the tick of scenario 7 must not remove a file of which nothing was read: "left alone" as well *)
+    SL ([SL []; SZ 0; SB []; of_bool false; of_bool true]
+        ++ (if l =? 6 then [SZ 4] else if l =? 7 then [SZ 4; of_bool false] else [])).
 
 (* the property on what the implementation did: the lines of the file that end behind the minimum saved offset are
    handed over exactly once, whole, in order, with their offsets in the decompressed stream (what is handed over with an
@@ -794,17 +819,47 @@ Definition c06z_model (which : Z) (k : zcase) : sx :=
 Definition line_end (m : Z) (b : bytes) : bool :=
   (m =? 0) || ((m <=? len b) && match snd (split_lines (take m b)) with [] => true | _ :: _ => false end).
 
-Definition c06z_pred (which : Z) (k : zcase) (obs : sx) : bool :=
+Definition z_read_ok (which : Z) (k : zcase) (es : list sx) (tl_ : bytes) (skp : sx) : bool :=
   let c := z_cfg k in let b := z_content k in let m := z_min k in
+  match opt_map (emit_of_sx which) es, as_bool skp with
+  | Some es', Some skp' =>
+      forall2b (emit_okb c) (filter (fun e => m <? fst (fst e)) es')
+                            (filter (fun e => m <? fst e) (spec_emits c false 0 b))
+      && ((len b <? m) || tail_relb c tl_ (snd (split_lines b)))
+      && negb skp'
+  | _, _ => false
+  end.
+
+(* a file that is being written (lz4 cannot be appended to: it is incomplete): nothing of it is handed over in that
+   pass, and the job is left done, i.e. where the next write notification resumes it (scenario 5: everything is handed
+   over then, exactly as in a first pass). A maintenance tick may leave the job alone (4) or resume it (2; then it must
+   have been read like in a first pass); with remove_after expired it must not remove a file that was not read:
+   gone only after everything was handed over (as for a plain file, hpred HMaintExp: "read first"). *)
+Definition c06z_pred (which : Z) (k : zcase) (l : Z) (obs : sx) : bool :=
   match obs with
-  | SL [SL es; SZ _; SB tl_; skp] =>
-      match opt_map (emit_of_sx which) es, as_bool skp with
-      | Some es', Some skp' =>
-          forall2b (emit_okb c) (filter (fun e => m <? fst (fst e)) es')
-                                (filter (fun e => m <? fst e) (spec_emits c false 0 b))
-          && ((len b <? m) || tail_relb c tl_ (snd (split_lines b)))
-          && negb skp'
-      | _, _ => false
+  | SL (SL es :: SZ _ :: SB tl_ :: skp :: dn :: extra) =>
+      let full := z_read_ok which k es tl_ skp in
+      let none := match es with [] => true | _ :: _ => false end in
+      match as_bool dn with
+      | Some done =>
+          if z_reads l then full && done && match extra with [] => true | _ :: _ => false end
+          else if l =? 2 then none && done && match extra with [] => true | _ :: _ => false end
+          else if l =? 6 then
+            match extra with
+            | [SZ r] => done && (((r =? 4) && none) || ((r =? 2) && full))
+            | _ => false
+            end
+          else
+            match extra with
+            | [SZ r; g] =>
+                match as_bool g with
+                | Some gone => if gone then (r =? 3) && full
+                               else done && (((r =? 4) && none) || ((r =? 2) && full))
+                | None => false
+                end
+            | _ => false
+            end
+      | None => false
       end
   | _ => false
   end.
@@ -814,8 +869,9 @@ Definition c06z_run (which : Z) (case obs : sx) : verdict :=
   | None => BadCase
   | Some k =>
       if negb (line_end (z_min k) (z_content k) || (len (z_content k) <? z_min k)) then BadCase else
-      let m := c06z_model which k in
-      if c06z_pred which k obs then (if sx_eqb m obs then Agree else Differ m) else Violates m
+      let l := z_lsof_of_sx case in
+      let m := c06z_model which k l in
+      if c06z_pred which k l obs then (if sx_eqb m obs then Agree else Differ m) else Violates m
   end.
 
 (* ============================ end to end: the real Pipeline.In behind the worker (which = 8) =====================
